@@ -672,3 +672,34 @@ def _trace_recognized(chk, fx):
                 chk.ok("TRACE-R", site, "new term set, then announced once")
         if n_new == 0:
             chk.incomplete("TRACE-R: no path of get_current_term reaches the end-of-input test")
+
+
+def manip_scan(chk, fx, rule):
+    """No stateful stream manipulator (std::hex, std::setw(...), ...) is inserted anywhere in the header: the stream is the
+    caller's object, shared by every call that is given it; formatting state left behind by one call changes what the next
+    one prints."""
+    chk.rule(rule, "stream insertions of the header without a stateful manipulator", 20)
+    seen = set()
+    for f in fx.all_fns():
+        if f.is_pattern or f.body is None or not f.o["q"].startswith("ctpg::"):
+            continue
+        key = (f.o["q"], f.o.get("l"))
+        if key in seen:
+            continue
+        seen.add(key)
+        n_writes = 0
+        bad = False
+        for st, guards in G.guarded_statements(f.body):
+            if not is_stream_write(st):
+                continue
+            n_writes += 1
+            root, ops = chain(st)
+            for o in ops:
+                mt = _manipulator(f, o)
+                if mt:
+                    bad = True
+                    chk.violation(rule, A.site(f, o), "%s:%s:manipulator" % (rule, f.o["q"]),
+                                  "a stream manipulator (%s) is inserted into the caller's stream and never undone: the "
+                                  "formatting state it leaves behind is shared by every later call given the same stream" % mt)
+        if n_writes and not bad:
+            chk.ok(rule, A.site(f), "%d insertion(s), none of them a stateful manipulator" % n_writes)
